@@ -157,6 +157,32 @@ pub fn explore(opts: &Opts) -> Explored {
                             l.sample(&case);
                         }
                     }
+                    // handles dropped before the pass (temporaries, re-bound variables): one op node's
+                    // handle, or the handles of every op node except the root
+                    if p.nodes.len() <= 4 {
+                        for root in p.nl()..p.nv() {
+                            let mut dvars: Vec<Program> = Vec::new();
+                            for v in p.nl()..p.nv() {
+                                if v != root {
+                                    let mut q = p.clone();
+                                    q.dropped.push(v);
+                                    dvars.push(q);
+                                }
+                            }
+                            if p.nodes.len() > 2 {
+                                let mut q = p.clone();
+                                q.dropped = (p.nl()..p.nv()).filter(|v| *v != root).collect();
+                                dvars.push(q);
+                            }
+                            for q in &dvars {
+                                let case = || format!("{} mask={:02b} bw(v{})", q.describe(), m, root);
+                                if !l.want(&case) {
+                                    continue;
+                                }
+                                check_one(q, &mask, root, l, name, &case);
+                            }
+                        }
+                    }
                 }
             };
             let mut g = Gen::new(leaves(var), ops.clone(), *n, &mut sink);
@@ -179,7 +205,7 @@ pub fn explore(opts: &Opts) -> Explored {
                 continue;
             }
             l.states += 1;
-            let mut p = Program { leaves: vec![Leaf { dims: vec![2], vals: vec![1.0, -1.0] }], nodes: Vec::new(), retrack: Vec::new() };
+            let mut p = Program { leaves: vec![Leaf { dims: vec![2], vals: vec![1.0, -1.0] }], nodes: Vec::new(), retrack: Vec::new(), frozen: Vec::new(), dropped: Vec::new() };
             for k in 0..depth {
                 p.nodes.push(PNode { op: OpK::UMul, args: vec![k, k] });
             }
@@ -189,12 +215,48 @@ pub fn explore(opts: &Opts) -> Explored {
                 l.violation("chain", case(), "the pass took more than 5 s: work is not proportional to nodes and edges".into());
             }
             l.sample(&case);
+            // the same chain written with re-binding, `x = umul(&x, &x)`: no intermediate handle survives
+            if depth <= 16 {
+                let case = || format!("self-product chain depth={} with re-binding (intermediate handles dropped)", depth);
+                if l.want(&case) {
+                    let mut q = p.clone();
+                    q.dropped = (1..depth).collect();
+                    let start = std::time::Instant::now();
+                    check_one(&q, &[true], depth, l, "chain", &case);
+                    if start.elapsed().as_secs_f64() > 5.0 {
+                        l.violation("chain", case(), "the pass took more than 5 s: work is not proportional to nodes and edges".into());
+                    }
+                }
+            }
         }
     }
+    // histories: handles paused / resumed / re-bound between passes, with the same log oracle (E3)
+    let machine_stats = {
+        use crate::checks::c10::{base_cfg, run_all};
+        use crate::machine::{Bounds, LeafSpec};
+        let lv = vec![
+            LeafSpec { dims: vec![2], vals: vec![2.0 + var as f64, 3.0], tracked: true },
+            LeafSpec { dims: vec![2], vals: vec![5.0, -1.0], tracked: false },
+        ];
+        let mut cfgs = Vec::new();
+        let mut m = base_cfg("user-ops/N3F2P2", lv.clone(), vec![OpK::UMul, OpK::UScale(3.0)], 5);
+        m.bounds = match opts.tier {
+            Tier::Quick => Bounds { builds: 2, flags: 2, passes: 2, depth: 6, ..Bounds::default() },
+            Tier::Thorough => Bounds { builds: 3, flags: 2, passes: 2, clones: 1, drops: 1, depth: 7, ..Bounds::default() },
+        };
+        m.flag_kinds = vec![0, 1, 2, 3];
+        m.touch_leaves = true;
+        m.seeds = vec![0];
+        m.check_log = true;
+        cfgs.push(m);
+        let (ml, st) = run_all(opts, cfgs);
+        total.merge(ml);
+        st
+    };
     Explored {
         local: total,
-        bounds: json!({"spaces": stats, "leaves": 2, "masks": "all 4", "roots": "every op node", "handle_deviations": "0 or 1 re-binding of a tracked op node through .tracked() at any later point of the construction (programs of up to 4 op nodes)", "self_product_chain_depths": format!("1..{}", max_depth)}),
-        rule: "every DAG in which every operation is a user op supplied through Array::op x masks x roots: per pass every reachable op node's closure is logged exactly once, unreachable ones never, with the complete adjoint (reference forward mode), the operand-tracking flags of the operation, and after all its consumers; self-product chains up to depth 24 need exactly depth invocations".into(),
+        bounds: json!({"spaces": stats, "machines": machine_stats, "leaves": 2, "masks": "all 4", "roots": "every op node", "handle_deviations": "handles of one or of all non-root op nodes dropped before the pass; 0 or 1 re-binding of a tracked op node through .tracked() at any later point of the construction (programs of up to 4 op nodes)", "self_product_chain_depths": format!("1..{}", max_depth)}),
+        rule: "plus an explicit-state BFS over histories of user-op builds, flag actions (pause / resume / tracked / untracked, on leaves and op nodes) and passes with the same log oracle on every pass. Every DAG in which every operation is a user op supplied through Array::op x masks x roots: per pass every reachable op node's closure is logged exactly once, unreachable ones never, with the complete adjoint (reference forward mode), the operand-tracking flags of the operation, and after all its consumers; self-product chains up to depth 24 need exactly depth invocations".into(),
         exhaustive: true,
         assumptions: vec!["the verdict uses user closures only; built-in derivative invocations are not part of it".into()],
     }
